@@ -123,3 +123,23 @@ def any_equivalent_pair(decls, terms, extra=(), timeout_ms=300, max_n=45):
                 if r == z3.unsat:
                     return True
     return False
+
+
+def valid_lenient(decls, formula, timeout_ms=5000):
+    """Validity where cvc5 may be unable to read opensmt's numerals (Int-looking constants in Real positions):
+    True  : z3 proves (not f) unsat and cvc5 says unsat or cannot parse/decide
+    False : z3 finds a validated model of (not f) and cvc5 does not say unsat   -> (False, model)
+    None  : otherwise"""
+    zr, zd = z3_check(decls, ["(not %s)" % formula], timeout_ms)
+    if zr == "error":
+        return None, "z3 parse error: " + str(zd)
+    cr, cd = cvc5_check(decls, ["(not %s)" % formula], timeout_ms)
+    if zr == "unsat":
+        if cr == "sat":
+            return None, "references disagree"
+        return True, None
+    if zr == "sat":
+        if cr == "unsat":
+            return None, "references disagree"
+        return False, zd
+    return None, "z3: %s" % zd
